@@ -299,6 +299,11 @@ def run(ctx: Ctx):
             a_, n_ = _an(d.attr_name), _n(entry.name)
             if a_ == n_ or (ci.name, d.attr_name) in SAME_NAME_OK:
                 continue
+            # the dictionary tells a 3GPP AVP from the IETF AVP of the same name by a "3GPP-"
+            # prefix; in the 3GPP grammar (and in the class that implements it) the AVP has the
+            # plain name: `sip_method` of Event-Type (TS 32.299) is 3GPP-SIP-Method
+            if entry.vendor == 10415 and n_ == "3gpp" + a_:
+                continue
             other = [o for o in names_idx.get(a_, []) if (o.code, o.vendor) != (entry.code, entry.vendor)]
             if other:
                 o = other[0]
@@ -308,6 +313,36 @@ def run(ctx: Ctx):
                          f"{o.name} is not decoded into the attribute (and is dropped on re-encoding), "
                          f"a value set on the attribute is written as {entry.name}", rule="C03-R11")
     ctx.rules["C03-R11"]["nontrivial"] |= {f"{ci.name}" for ci in classes_with_defs}
+
+    # ---- R16: a 3GPP class uses the 3GPP AVP where the dictionary has one of the same name ----
+    ctx.rule("C03-R16", "in a grouped AVP of a 3GPP grammar (most members vendor 10415) an attribute is "
+                        "not defined with the IETF AVP <Name> when the dictionary has 3GPP-<Name> of vendor "
+                        "10415 - the AVP the 3GPP grammar means by that name", floor=100)
+    tgpp_names = {_n(e_.name)[4:]: e_ for e_ in dct.all_entries
+                  if e_.vendor == 10415 and _n(e_.name).startswith("3gpp")}
+    for ci in classes_with_defs:
+        defs_ = [d for d in (extract_avp_defs(model, ci, fields, defaults) or []) if isinstance(d.avp_code, int)]
+        # (commands mix IETF and 3GPP members freely - the NASREQ commands carry Service-Type 6
+        # next to 3GPP extensions; a grouped AVP of a 3GPP specification is recognised by most of
+        # its members being 3GPP AVPs)
+        if ci in msg_classes or 2 * sum(1 for d in defs_ if d.vendor_id == 10415) < len(defs_):
+            continue
+        for d in defs_:
+            cons = f"{d.construct}#3gpp-twin"
+            ctx.inst(cons, rule="C03-R16", nontrivial=False)
+            if d.vendor_id:
+                continue
+            entry = dct.get(d.avp_code, d.vendor_id)
+            if entry is None:
+                continue
+            twin = tgpp_names.get(_n(entry.name))
+            if twin is not None and _an(d.attr_name) == _n(entry.name):
+                ctx.fail(cons, d.where(), f"{ci.name}.{d.attr_name} is defined with the IETF AVP {entry.name} "
+                         f"({entry.code}/0) although {ci.name} implements a 3GPP grammar (it has vendor-10415 "
+                         f"members) and the dictionary has {twin.name} ({twin.code}/10415): what a 3GPP peer "
+                         f"sends under that name is not decoded into the attribute, and a value set on it "
+                         f"goes out under the IETF code", rule="C03-R16")
+    ctx.rules["C03-R16"]["nontrivial"] |= {ci.name for ci in classes_with_defs}
 
     # ---- R13/R14: what is encoded is what the attributes hold now; Time values survive -------
     from .common_codec import as_bytes_encodes_current
